@@ -1,0 +1,6 @@
+//go:build !verif
+
+package packet
+
+// verifPoolEvent is a no-op unless the module is built with the "verif" tag (see verif_on.go).
+func verifPoolEvent(ev string, w *Writer) {}
